@@ -192,7 +192,16 @@ def progUser (n : Nat) (prog : List Step) (outs : List Nat) : PoolUser (List Val
 def entries : List String :=
   ["pairfixedq", "millerloopfixedq", "pairingcheckfixedq", "pair", "kzgverify", "kzgbatchverify", "kzgopen", "kzgcommit",
    "kzgbatchopen", "multiexp", "fft", "mimc", "poseidon2", "sis", "batchscalarmul", "batchjactoaff", "iop", "vector", "codec",
-   "edwards", "polypool", "mdhasher"]
+   "edwards", "polypool", "mdhasher",
+   "plookupvec", "plookuptab", "permutation", "fri", "shplonk", "fflonk", "pedersen", "iopratio", "kzglagrange", "polynomial",
+   "vortex", "merkle"]
+
+/-- entry points that switch to a goroutine / `parallel.Execute` implementation above some size: the `C18 par` lines run
+them above that size (same list as `c18ParEntries` in the harness) -/
+def parEntries : List String :=
+  ["kzgopen", "kzgcommit", "kzgbatchopen", "multiexp", "fft", "sis", "batchscalarmul", "batchjactoaff", "iop", "vector",
+   "codec", "plookupvec", "plookuptab", "permutation", "fri", "shplonk", "fflonk", "pedersen", "iopratio", "kzglagrange",
+   "vortex", "merkle"]
 
 def curves : List String :=
   ["bn254", "bls12-377", "bls12-381", "bls24-315", "bls24-317", "bw6-633", "bw6-761"]
@@ -203,8 +212,11 @@ def smallFields : List String := ["koalabear", "babybear", "goldilocks"]
 def supported (e c : String) : Bool :=
   entries.contains e &&
     (if e == "sis" then c == "bls12-377" || smallFields.contains c
-     else if e == "poseidon2" then curves.contains c || smallFields.contains c
+     else if e == "poseidon2" || e == "fft" then curves.contains c || smallFields.contains c
+     else if e == "vortex" || e == "merkle" then c == "koalabear"
      else curves.contains c)
+
+def parSupported (e c : String) : Bool := parEntries.contains e && supported e c
 
 /-- lazily initialised globals and the packages that have them (same table as `c18FreshSupported` in the harness) -/
 def freshSupported (g c : String) : Bool :=
@@ -227,6 +239,10 @@ values of its arguments, hence pure, repeatable and schedule independent: all th
 `C18 fresh <global> <package> <goroutines> <children> <seed>` : the first use of a lazily initialised global, made
 concurrently in fresh processes: the `Once` model runs the initialiser exactly once before any reader proceeds, so every
 caller obtains the value of the initialised state: the same three bits.
+`C18 par <entry> <curve> <k> <goroutines> <gomaxprocs> <seed>` : the entry point above the size threshold of its parallel
+implementation, compared with its run on one processor: the workers of the fork-join write disjoint cells and read none of
+them (`C18_execute_kernel`), so the result is the sequential one under every schedule and every number of processors: the
+same three bits.
 `C18 ranges <n> <nbTasks>` : the ranges of `parallel.Execute`. -/
 def handle : List String → String
   | ["ranges", n, nb] =>
@@ -235,6 +251,10 @@ def handle : List String → String
     | _, _ => "err:args"
   | ["fresh", gl, c, g, n, seed] =>
     if freshSupported gl c && (hexIn g 1 64).isSome && (hexIn n 1 200).isSome && (hexIn seed 0 (2^64 - 1)).isSome
+    then "pure=1 same=1 conc=1" else "err:args"
+  | ["par", e, c, k, g, p, seed] =>
+    if parSupported e c && (hexIn k 1 0x200).isSome && (hexIn g 0 64).isSome && (hexIn p 2 64).isSome &&
+       (hexIn seed 0 (2^64 - 1)).isSome
     then "pure=1 same=1 conc=1" else "err:args"
   | [e, c, k, g, p, seed] =>
     if supported e c && (hexIn k 1 8).isSome && (hexIn g 0 64).isSome && (hexIn p 1 64).isSome &&
